@@ -6,6 +6,7 @@ from vf.core import call, exc_desc
 from vf.lazy import ck, libx, common
 
 PROP = "C15"
+TECHNIQUE = ('history checker: deep public-state snapshots before/after every operation of random histories on shared Dataset / ScoringScheme / algorithm objects; result digests vs the same operations on fresh objects; early results re-digested at the end')
 RULE = ("history checker: a random history of 3-12 non-mutating API operations (any algorithm configuration -- the algorithm objects are shared too, one per configuration, reused across histories --, kemeny_score, "
         "description, str, both partitions, unified_rankings / dataset, projections, matrices, scheme * k, equivalence "
         "tests, dataset == other, nickname) runs on SHARED Dataset / ScoringScheme objects; (a) a deep snapshot of the "
@@ -61,15 +62,18 @@ def snap_dataset(d):
         "i2e": [(i, type(e.value).__name__, e.value) for i, e in d.mapping_id_elem.items()],
         "rankings": [[sorted((type(e.value).__name__, e.value) for e in b) for b in r.buckets] for r in rankings],
         "positions": [sorted((type(e.value).__name__, e.value, p) for e, p in r.positions.items()) for r in rankings],
-        "ids": [id(r) for r in rankings],
-        "bucket_ids": [[id(b) for b in r.buckets] for r in rankings],
-        "containers": (id(rankings), id(d.mapping_elem_id), id(d.mapping_id_elem)),
     }
+
+
+def identities_dataset(d):
+    """object identities (advisory only: an accessor returning defensive copies is legitimate)"""
+    rankings = d.rankings
+    return ([id(r) for r in rankings], [[id(b) for b in r.buckets] for r in rankings])
 
 
 def snap_scheme(s):
     pv = s.penalty_vectors
-    return {"values": [list(pv[0]), list(pv[1])], "ids": (id(pv), id(pv[0]), id(pv[1])),
+    return {"values": [list(pv[0]), list(pv[1])],
             "types": [[type(v).__name__ for v in pv[0]], [type(v).__name__ for v in pv[1]]]}
 
 
@@ -183,8 +187,11 @@ def check_case(case, ctx):
         seed = case["opseed"] + step
         sub = {**case, "failed_step": step, "op": op}
         before_d, before_s, before_o = snap_dataset(d), snap_scheme(s), snap_dataset(other)
+        ident_before = identities_dataset(d)
         st, res = call(run_op, op, d, s, seed, other, SHARED_ALGS)
         after_d, after_s, after_o = snap_dataset(d), snap_scheme(s), snap_dataset(other)
+        if identities_dataset(d) != ident_before:
+            ctx.count("ranking_or_bucket_objects_replaced_with_equal_values")
         ctx.count("ops")
         ctx.count("op:" + op)
         ctx.count("snapshots_compared", 3)
@@ -196,8 +203,7 @@ def check_case(case, ctx):
             keys = diff_keys(before_d, after_d) or diff_keys(before_o, after_o)
             ctx.violation(f"C15/dataset-modified-by:{op.split('[')[0].split('(')[0]}:{'+'.join(keys)}",
                           f"step {step}: {op} changed the dataset ({keys}): before {{k: before_d[k] for k in keys}}",
-                          sub, observed={k: after_d.get(k) for k in keys if k not in ('ids', 'bucket_ids', 'containers')},
-                          expected={k: before_d.get(k) for k in keys if k not in ('ids', 'bucket_ids', 'containers')})
+                          sub, observed={k: after_d.get(k) for k in keys}, expected={k: before_d.get(k) for k in keys})
             return
         if after_s != before_s:
             keys = diff_keys(before_s, after_s)
